@@ -57,7 +57,9 @@ func (g *planGen) knownMsg(ms *spec.Msg, ot types.ObjectType, mt reflect.Type, p
 	// oneof groups: choose the active branch (or none)
 	active := map[string]string{}
 	groups := map[string][]*spec.Attr{}
-	for _, a := range ms.Live() {
+	// all declared branches take part in the choice (also excluded ones), so that
+	// variants of a case that exclude a branch draw the same logical input
+	for _, a := range ms.Attrs {
 		if a.Oneof != nil {
 			groups[a.Oneof.Group] = append(groups[a.Oneof.Group], a)
 		}
@@ -69,6 +71,8 @@ func (g *planGen) knownMsg(ms *spec.Msg, ot types.ObjectType, mt reflect.Type, p
 	sort.Strings(gnames)
 	for _, gn := range gnames {
 		br := groups[gn]
+		// the choice must not depend on the declaration order
+		sort.Slice(br, func(i, j int) bool { return br[i].Proto < br[j].Proto })
 		i := g.pick(len(br)+1, path+"/oneof:"+gn, "active")
 		if i < len(br) {
 			active[gn] = br[i].Proto
